@@ -27,7 +27,7 @@ import (
 	"verif/internal/model"
 )
 
-const rule = "cases: a shared value of each structure type (certificate, key certificate with known, reserved and unknown type codes, keys-and-cert, destination, router identity, router address, RouterInfo, LeaseSet, LeaseSet2 with options and offline block, MetaLeaseSet, EncryptedLeaseSet, offline signature, signature, mapping, lease, Lease2; parsed from a generated model encoding, and for identities / LeaseSet2 also built through the constructors) x 2..16 goroutines, each running a generated list of 5..40 read-only operations drawn from {every exported argument-free method of the value (serialise, hash, addresses, validate, verify, accessors), size-table lookups, parsing other data} with generated runtime.Gosched points behind a start barrier; binary built with -race. Oracle: the race detector reports nothing (a report ends the process and the pending case file is the replay), every concurrent result equals the result of the same operation computed sequentially before the fan-out, and the serialisation is unchanged afterwards. Schedules are sampled, not enumerated. Non-trivial: >= 2 goroutines executed at least one common operation on the same value; distinct by (target, operation lists)."
+const rule = "cases: a shared value of each structure type (certificate, key certificate with known, reserved and unknown type codes, keys-and-cert, destination, router identity, router address, RouterInfo, LeaseSet, LeaseSet2 with options and offline block, MetaLeaseSet, EncryptedLeaseSet, offline signature, signature, mapping, lease, Lease2; parsed from a fixed-shape model encoding derived from a seed or (half of the cases) from an encoding drawn from the structure generators of C01/C02 - every key type, flag combination, option set, offline block, lease order -, and for identities / LeaseSet2 also built through the constructors) x 2..16 goroutines, each running a generated list of 5..40 read-only operations drawn from {every exported argument-free method of the value (serialise, hash, addresses, validate, verify, accessors), size-table lookups, parsing other data} with generated runtime.Gosched points behind a start barrier; binary built with -race. Oracle: the race detector reports nothing (a report ends the process and the pending case file is the replay), every concurrent result equals the result of the same operation computed sequentially before the fan-out, and the serialisation is unchanged afterwards. Schedules are sampled, not enumerated. Non-trivial: >= 2 goroutines executed at least one common operation on the same value; distinct by (target, operation lists)."
 
 func TestMain(m *testing.M) { ev.Main(m, "C18", rule) }
 
@@ -38,7 +38,14 @@ type Case struct {
 	Ops     [][]int `json:"ops"`   // per goroutine: operation indices (mod number of operations)
 	Yields  []int   `json:"yields"`
 	Repeats int     `json:"repeats"`
+	// Wire: when set, the shared value is parsed from this generated encoding (the
+	// structure generators of C01/C02: every key type, flag, option set, offline
+	// block, lease order) instead of the fixed per-target shape derived from Seed
+	Wire string `json:"wire_hex,omitempty"`
+	Typ  int    `json:"typ,omitempty"`
 }
+
+var errRejected = fmt.Errorf("generated encoding not accepted")
 
 var targets = []string{
 	"certificate.ReadCertificate", "key_certificate.NewKeyCertificate", "keys_and_cert.ReadKeysAndCert",
@@ -60,6 +67,13 @@ type encoded struct {
 // value builds the shared value from (target, seed); parsed values come from one
 // cached encoding, constructed values only from deterministic signers.
 func value(c Case) (any, error) {
+	if c.Wire != "" {
+		res := lib.ByName(c.Target).Parse(ev.UnH(c.Wire), c.Typ)
+		if !res.Accepted || res.Value == nil {
+			return nil, errRejected
+		}
+		return res.Value, nil
+	}
 	key := fmt.Sprintf("%s/%d/%v", c.Target, c.Seed, c.Built)
 	if e, ok := encCache.Load(key); ok {
 		en := e.(encoded)
@@ -258,8 +272,15 @@ func check(c Case, r *ev.Rec) error {
 	// have been touched by any call before the fan-out (a lazily filled cache is
 	// only racy on first use).
 	vb, err := value(c)
+	if err == errRejected {
+		r.Class("generated-encoding-rejected")
+		return nil
+	}
 	if err != nil {
 		return err
+	}
+	if c.Wire != "" {
+		r.Class("shared-value:generated-encoding")
 	}
 	baseOps := operations(vb)
 	base := make([]string, len(baseOps))
@@ -351,7 +372,7 @@ func check(c Case, r *ev.Rec) error {
 	r.Class("target:" + c.Target)
 	r.Class(fmt.Sprintf("goroutines:%d", len(c.Ops)))
 	if common {
-		r.NonTrivialStr(c, c.Target, fmt.Sprint(c.Seed, c.Built, c.Ops))
+		r.NonTrivialStr(c, c.Target, fmt.Sprint(c.Seed, c.Built, c.Ops), c.Wire)
 	}
 	return nil
 }
@@ -382,6 +403,12 @@ func genCase(t *rapid.T) Case {
 		c.Ops = append(c.Ops, row)
 	}
 	c.Yields = rapid.SliceOfN(rapid.IntRange(0, 5), 1, 16).Draw(t, "yields")
+	if rapid.Bool().Draw(t, "generated") {
+		b, typ, _ := gen.ValidFor(t, c.Target)
+		if len(b) <= 6000 {
+			c.Wire, c.Typ, c.Built = ev.H(b), typ, false
+		}
+	}
 	return c
 }
 
